@@ -417,6 +417,17 @@ def directed(p):
     # the generated document is loaded, printed, used; then parsed again
     out.append({"history": [par("redef_ok"), {"op": "load", "doc": None, "ref": 0, "via": "class"}, {"op": "print", "k": 0},
                             {"op": "load", "doc": None, "ref": 0, "via": "instance"}], "probe": pp("redef_ok")})
+    # a fixed layout (no OCCURS DEPENDING ON): record B read through the Location tree of the navigator kept for record A
+    FIXED = ("       01  F-REC.\n           05  F-ID PIC 9(4).\n           05  F-AMT PIC S9(5)V99 COMP-3.\n"
+             "           05  F-TAB OCCURS 2 TIMES.\n               10  F-CODE PIC XX.\n               10  F-QTY PIC S9(3) COMP.\n"
+             "           05  F-NAME PIC X(5).\n           05  F-ALT REDEFINES F-NAME PIC 9(5).\n")
+    fpaths = [[[0, "F-ID"]], [[0, "F-AMT"]], [[0, "F-TAB"], [1, 0], [0, "F-CODE"]], [[0, "F-TAB"], [1, 1], [0, "F-QTY"]], [[0, "F-NAME"]], [[0, "F-ALT"]]]
+    frec = lambda k: ([0xF0 + (k + i) % 10 for i in range(4)] + [0x10 + k, 0x23, 0x45, 0x6C + (k % 2)]
+                      + [0xC1 + k, 0xC2, 0x00, k, 0xC3, 0xC4 + k, 0x01, 0x02 + k] + [0xF1 + (k + i) % 9 for i in range(5)])
+    fnav = lambda k, keep: {"op": "nav", "text": FIXED, "record": frec(k), "paths": fpaths, "keep": keep, "dump": False}
+    for hist in ([fnav(1, True)], [fnav(1, True), {"op": "reread", "k": 0}], [fnav(2, True), fnav(3, False), {"op": "helpers"}]):
+        out.append({"history": hist, "probe": {"probe": "read", "text": FIXED, "record": frec(5), "paths": fpaths, "use_kept": False,
+                                               "tree_of_kept": True}})
     # kept navigators over ODO + REDEFINES records while other records are read
     for text, variants in p.layouts[:2]:
         recs = variants[:3]
